@@ -178,8 +178,8 @@ def sources(f: int, x: int, bad: int, enc: int) -> bool:
     """
     if enc != 0 and x > 2:
         return True             # BOM encodings: first three alternatives
-    if QUICK and x > 11:
-        return True             # quick tier: first twelve alternatives
+    if QUICK and x > 5:
+        return True             # quick tier: first six alternatives
     r = _sources(slice_no(0), f, x, bad, enc)
     return True if r is None else r
 
